@@ -139,7 +139,9 @@ class cpr_drs {
                 const backend_params &bprm = backend_params()
                ) : prm(prm), n(backend::rows(K))
         {
-            init(std::make_shared<build_matrix>(K), bprm,
+            auto K_ptr = std::make_shared<build_matrix>(K);
+            backend::sort_rows(*K_ptr);
+            init(K_ptr, bprm,
                     std::integral_constant<bool, math::static_rows<value_type>::value == 1>());
         }
 
@@ -191,6 +193,7 @@ class cpr_drs {
               )
         {
             auto K_ptr = std::make_shared<build_matrix>(K);
+            backend::sort_rows(*K_ptr);
             // Update global preconditioner
             S = std::make_shared<SPrecond>(K_ptr, prm.sprecond, bprm);
             if(update_transfer_ops){
